@@ -701,4 +701,106 @@ theorem construct_ids (i : CInput) (hp : i.prebuilt = none) (hsol : i.solution =
       · (simp only [hT', Bool.false_eq_true, if_false]) <;> rfl
       · (simp only [sL, vs1, sT, hT', hL', Bool.false_eq_true, if_false]) <;> rfl
 
+/-! ### `from_tracks` (as repaired): the pieces -/
+
+/-- everything of the TrackAnnotator except the activation flags -/
+def trackBook (o : COut) :
+    Option (Name × Name × List Name × List (Nat × List Node) × List (Nat × List Node) × Nat × Nat × BookSrc × BookSrc) :=
+  o.track.map (fun a => (a.tKey, a.lKey, keysOf a.table, a.t2n, a.l2n, a.maxT, a.maxL, a.tSrc, a.lSrc))
+
+theorem trackBook_mapTables_activate (keys : List Name) (o : COut) :
+    trackBook (mapTables (activateTbl keys) o) = trackBook o := by
+  unfold trackBook mapTables
+  cases o.track with
+  | none => rfl
+  | some a => simp only [Option.map_some]; rw [keysOf_activateTbl]
+
+theorem trackBook_actStep (o : COut) (k : Name) : trackBook (actStep o k) = trackBook o := by
+  unfold actStep
+  split
+  · unfold activate
+    split
+    · rfl
+    · exact trackBook_mapTables_activate [k] o
+  · rfl
+
+theorem trackBook_activateFromDict (o : COut) : trackBook (activateFromDict o) = trackBook o := by
+  rw [activateFromDict_eq]
+  generalize keysOf o.reg = ks
+  induction ks generalizing o with
+  | nil => rfl
+  | cons k r ih => simp only [foldl_cons]; rw [ih, trackBook_actStep]
+
+theorem trackBook_enableCore (o : COut) (keys : List Name) : trackBook (enableCore o keys) = trackBook o := by
+  obtain ⟨_, _, _, _, _, _, f7⟩ := enableCore_fields o keys
+  unfold trackBook
+  rw [f7]
+  cases o.track with
+  | none => rfl
+  | some a => simp only [Option.map_some]; rw [keysOf_activateTbl]
+
+theorem mem_filterActive_activate {t : Table} {keys : List Name} {k : Name} (hk : k ∈ keys) (ht : k ∈ keysOf t) :
+    k ∈ filterActive (activateTbl keys t) keys := by
+  unfold filterActive
+  rw [mem_filter, any_eq_true]
+  refine ⟨hk, ?_⟩
+  simp only [keysOf, mem_map] at ht
+  obtain ⟨e, he, rfl⟩ := ht
+  rw [activateTbl_eq]
+  refine ⟨(e.1, e.2.1, e.2.2 || keys.contains e.1), mem_map.2 ⟨e, he, rfl⟩, ?_⟩
+  simp [hk]
+
+/-- a bulk computation that is asked for the (active) tracklet key runs `_assign_tracklet_ids` -/
+theorem trackCompute_runs_t (o : COut) (keys : List Name) (a : TrackAnn) (ha : o.track = some a)
+    (h : a.tKey ∈ filterActive a.table keys) :
+    (AKind.track, a.tKey) ∈ (trackCompute o keys).computed ∧
+    ∃ a', (trackCompute o keys).track = some a' ∧ a'.tSrc = BookSrc.computed := by
+  rw [trackCompute_some o keys a ha]
+  have hne : (filterActive a.table keys).isEmpty = false := by
+    cases hl : filterActive a.table keys with
+    | nil => rw [hl] at h; cases h
+    | cons _ _ => rfl
+  have hc : (filterActive a.table keys).contains a.tKey = true := by simpa using h
+  simp only [hne, Bool.false_eq_true, if_false, hc, if_true]
+  by_cases hl : (filterActive a.table keys).contains (computeT o a).2.lKey = true
+  · have hl' : (filterActive a.table keys).contains a.lKey = true := hl
+    simp only [hl', if_true]
+    exact ⟨by unfold computeL computeT; simp, _, rfl, rfl⟩
+  · have hl' : ¬ (filterActive a.table keys).contains a.lKey = true := hl
+    simp only [hl']
+    exact ⟨by unfold computeT; simp, _, rfl, rfl⟩
+
+/-- … and for the (active) lineage key `_assign_lineage_ids` -/
+theorem trackCompute_runs_l (o : COut) (keys : List Name) (a : TrackAnn) (ha : o.track = some a)
+    (h : a.lKey ∈ filterActive a.table keys) :
+    (AKind.track, a.lKey) ∈ (trackCompute o keys).computed ∧
+    ∃ a', (trackCompute o keys).track = some a' ∧ a'.lSrc = BookSrc.computed := by
+  rw [trackCompute_some o keys a ha]
+  have hne : (filterActive a.table keys).isEmpty = false := by
+    cases hl : filterActive a.table keys with
+    | nil => rw [hl] at h; cases h
+    | cons _ _ => rfl
+  have hc : (filterActive a.table keys).contains a.lKey = true := by simpa using h
+  simp only [hne, Bool.false_eq_true, if_false, hc, if_true]
+  by_cases ht : (filterActive a.table keys).contains a.tKey = true
+  · simp only [ht, if_true]
+    exact ⟨by unfold computeL computeT; simp, _, rfl, rfl⟩
+  · simp only [ht]
+    exact ⟨by unfold computeL; simp, _, rfl, rfl⟩
+
+theorem computeAll_track_eq (o : COut) (keys : List Name) :
+    computeAll o keys = trackCompute (edgeCompute (rpCompute o keys) keys) keys ∧
+    (edgeCompute (rpCompute o keys) keys).track = o.track := by
+  refine ⟨rfl, ?_⟩
+  rw [edgeCompute_frame, rpCompute_frame]
+
+theorem mkTrack_cons_gen (n0 : CNode) (rest : List CNode) (tkArg lkArg : Option Name) :
+    (mkTrack (n0 :: rest) tkArg lkArg).tSrc = BookSrc.fromGraph ∧
+    ((mkTrack (n0 :: rest) tkArg lkArg).maxT, (mkTrack (n0 :: rest) tkArg lkArg).t2n) =
+      maxIdMap (n0 :: rest) (tkArg.getD "tracklet_id") ∧
+    (∀ lk, lkArg = some lk → (mkTrack (n0 :: rest) tkArg lkArg).lSrc = BookSrc.fromGraph ∧
+      ((mkTrack (n0 :: rest) tkArg lkArg).maxL, (mkTrack (n0 :: rest) tkArg lkArg).l2n) = maxIdMap (n0 :: rest) lk) := by
+  unfold mkTrack
+  cases lkArg <;> simp
+
 end Ft.R7S
